@@ -118,16 +118,19 @@ impl Simplifier {
             Expression::FunctionCall(FunctionCallExpression {
                 function: _,
                 expression,
-            }) => 1 + self.size(expression.clone()),
+            }) => self.size(expression.clone()).saturating_add(1),
             Expression::Infix(InfixExpression {
                 left,
                 operator: _,
                 right,
-            }) => 1 + self.size(left.clone()) + self.size(right.clone()),
+            }) => self
+                .size(left.clone())
+                .saturating_add(self.size(right.clone()))
+                .saturating_add(1),
             Expression::Prefix(PrefixExpression {
                 operator: _,
                 expression,
-            }) => 1 + self.size(expression.clone()),
+            }) => self.size(expression.clone()).saturating_add(1),
         };
 
         self.size_cache.insert(expr, result);
